@@ -208,6 +208,14 @@ def run(plan):
         if kind == "caps":
             dev.caps_pages = [(NEW_CAPS, None)]
             op = {"op": "caps", "net": [{"app": spec}]}
+        elif kind == "all" and plan.get("silent_queries"):
+            # some queries of the poll are never answered (three transmissions each), the others only by the
+            # corrupted frame: still no valid frame in the whole poll
+            net = []
+            for q in range(3 if plan.get("caps_after_poll") else 4):
+                net += [{"drop": True}] * 3 if q in plan["silent_queries"] else [{"app": spec}]
+            op = {"op": "refresh", "net": net}
+            w.fire("unanswered_and_corrupted_queries_in_one_poll")
         elif kind == "all":
             op = {"op": "refresh", "net": [{"app": spec} for _ in range(4)]}
         else:
@@ -356,6 +364,10 @@ def space(tier):
                 if p.get("repeat"):
                     # the repeated-poll history is kept free of the other variations
                     p.update({"place": "alone", "ftype": None, "caps_with_extra": False, "fresh_first": False})
+                if p["kind"] == "all" and rng.random() < 0.3:
+                    nq = 3 if p.get("caps_after_poll") else 4        # the late profile has no property query
+                    p["silent_queries"] = sorted(rng.sample(range(nq), rng.randint(1, nq - 1)))
+                    p["place"] = rng.choice(["alone", "twice"])
                 return p
             reps = 2 if tier == "thorough" else 1
             sp.add(f"{label}_{kind}", len(positions) * nvals * reps, fn2, exhaustive=(nvals == 255))
